@@ -13,6 +13,9 @@ import (
 	"encoding/json"
 	"fmt"
 	"go/format"
+	goparser "go/parser"
+	"go/printer"
+	"go/token"
 	"io"
 	"log/slog"
 	"os"
@@ -53,11 +56,21 @@ func program(src string) (string, error) {
 		return "", fmt.Errorf("generate: %w", err)
 	}
 	masked := errPos.ReplaceAll(b.Bytes(), []byte("${1}0${2}0}"))
-	f, err := format.Source(masked)
-	if err != nil {
+	if _, err := format.Source(masked); err != nil {
 		return "", fmt.Errorf("gofmt: %w", err)
 	}
-	return string(f), nil
+	// "gofmt-level layout of the embedded Go code" is not part of the program: compare the syntax tree printed
+	// without comments (blank lines and comment placement are layout; every literal and statement stays exact)
+	fset := token.NewFileSet()
+	file, err := goparser.ParseFile(fset, "p_templ.go", masked, 0)
+	if err != nil {
+		return "", fmt.Errorf("go/parser: %w", err)
+	}
+	var out bytes.Buffer
+	if err := (&printer.Config{Mode: printer.UseSpaces | printer.TabIndent, Tabwidth: 8}).Fprint(&out, token.NewFileSet(), file); err != nil {
+		return "", fmt.Errorf("go/printer: %w", err)
+	}
+	return out.String(), nil
 }
 
 type report struct {
@@ -338,10 +351,11 @@ var oddFeatures = []struct {
 	{templang.OddCondOneLine, "ConditionalAttribute.WrittenOnOneLine"},
 	{templang.OddExprComment, "StringExpression.BlockCommentInsideBraces"},
 	{templang.OddCallBlockOneLine, "TemplElementExpression.BlockWrittenOnOneLine"},
+	{templang.OddCommentBeforeTempl, "TemplateFile.IndentedCommentBeforeTempl"},
 }
 
 func srcOdd(prog []templang.Node, odd int) string {
-	return templang.Header("p") + "templ P(env *Env) {" + templang.TemplateBodyOdd(prog, 3, odd) + "}\n"
+	return templang.Header("p") + templang.TemplateOdd("P", prog, 3, odd)
 }
 
 func failsSrc(s string, kind string) bool {
